@@ -42,7 +42,7 @@ class State:
         s = State([dict(f) for f in self.frames], dict(self.heap), list(self.pc), self.old)
         s.frame_locals = list(self.frame_locals)
         s.ghost_log = list(self.ghost_log)
-        for k in ('trail', 'current_exc'):
+        for k in ('trail', 'current_exc', 'ki', 'ki_points', 'ki_exc'):
             if hasattr(self, k):
                 setattr(s, k, getattr(self, k))
         return s
@@ -110,6 +110,11 @@ class Engine:
         self.houdini_fixed = houdini is not None and not ctx.finite
         self.trial = 0                    # >0: inside a Houdini trial pass (VCs assumed, not checked)
         self.skip_names = set()
+        self.interrupts = 0
+        self.interrupt_during = False
+        self.interrupt_budget = {}
+        self.ki_points_seen = set()
+        self.handler_entry_invs = {}
         self.lazy_entry = {}
         self.solver_time = 0.0
         self.queries = 0
